@@ -15,7 +15,7 @@ TIMEOUT = 900
 RULE = ("seeded structured generator gen/C20.py (corpus of defect witnesses first); pools selected by querying "
         "lp_polynomial_hash of 2500 candidates on the build under test; distinct = distinct case line; "
         "non-trivial = the sequence removes/pops/intersects after at least 3 insertions")
-ASSUMPTIONS = ["the cached hash of a polynomial is not stale (elements are not mutated while stored; staleness is C18's)",
+ASSUMPTIONS = ["stored elements are not mutated while they are in a container",
                "heap capacity doubling (realloc) and vector capacity growth are not modelled (memory layout only)",
                "table sizes stay far below 2^63; (size_t)(n*0.7) = floor(7n/10) for n a power of two"]
 TRUSTED = ["harness/c20.c maps polynomials back to pool indices with lp_polynomial_cmp and detects leaked "
@@ -437,6 +437,85 @@ def vc_case(rng):
     return "vc " + fmt_pool(pool) + " " + " ".join(ops)
 
 
+# ------------------------------------------------------------------------------------------ computed elements
+HC_OPS1 = ["neg", "der", "red", "coef", "reductum", "asg", "pp", "cont", "ppcont", "pow", "shl", "muli"]
+HC_OPS2 = ["add", "sub", "mul", "addmul", "submul"]
+
+
+def hc_case(rng):
+    """elements that are RESULTS of operations (add, mul, derivative, reduce_degree_Zp, get_coefficient, pp/cont,
+    swap, ...) over Z or Z_p (p = 3, 5, 7), computed from operands whose hash is already cached (they are / were
+    set members or were hashed explicitly) into outputs whose hash is cached too (fresh / pre-used / aliased);
+    then insert / contains / remove with the result itself and with an independently built equal polynomial"""
+    M = rng.choice([0, 0, 3, 3, 5, 7])
+    P = rng.randint(2, 7)
+    pool = []
+    while len(pool) < P:
+        hi = (M + 3) if M else 4
+        sp = (rng.choice([1, 1, 2, 3, -1, 4]), rng.randint(0, hi), rng.randint(0, 2), rng.choice([0, 1, 1, -1, 2, 5]))
+        if sp not in pool:
+            pool.append(sp)
+    NR = rng.randint(2, 5)
+    ops = []
+    heavy = 0
+
+    def operand(allow_reg=True):
+        if allow_reg and rng.random() < 0.4:
+            return "r%d" % rng.randrange(NR)
+        return "p%d" % rng.randrange(P)
+
+    closed = False
+    for _ in range(rng.choice([6, 10, 16, 25, 40])):
+        if closed:
+            ops.append("k")
+            closed = False
+            continue
+        k = rng.random()
+        if k < 0.40:
+            # a computation whose operands (and often the output) have cached hashes
+            if rng.random() < 0.5:
+                op = rng.choice(HC_OPS1 + (["red"] * 5 if M else ["pp", "cont"]))
+                a, b = operand(), "-"
+            else:
+                op = rng.choice(HC_OPS2)
+                a, b = operand(), operand()
+            if op in ("mul", "addmul", "submul", "pow"):
+                heavy += 1
+                if heavy > 5:
+                    op = "add" if b != "-" else "neg"
+            d = rng.randrange(NR)
+            if rng.random() < 0.25:
+                a = "r%d" % d                              # aliased output
+            pre = []
+            for x in {a, b} - {"-"}:
+                r = rng.random()
+                if r < 0.45:
+                    pre.append("h" + x)                    # hash cached by asking for it
+                elif r < 0.8:
+                    pre.append(rng.choice(["i", "i", "m"]) + x)   # ... or by set membership
+            if rng.random() < 0.5:
+                pre.append(rng.choice(["h", "i"]) + "r%d" % d)    # the output holds a cached hash too
+            rng.shuffle(pre)
+            ops += pre
+            if op == "swap" or (rng.random() < 0.08 and NR >= 2):
+                x, y = rng.sample(range(NR), 2)
+                ops += ["hr%d" % x, "Cswap,0,r%d,r%d,0" % (x, y)]
+            ops.append("C%s,%d,%s,%s,%d" % (op, d, a, b, rng.randint(0, 6)))
+            # use the result as an element right away, by itself and by an equal independent polynomial
+            follow = rng.choice([["i", "I"], ["I", "i"], ["i", "I", "R"], ["i", "r"], ["m", "I", "R"], ["I", "r"], ["i"]])
+            ops += [f + "r%d" % d for f in follow]
+        elif k < 0.65:
+            ops.append(rng.choice(["i", "I", "m"]) + operand())
+        elif k < 0.90:
+            ops.append(rng.choice(["r", "R"]) + operand())
+        elif k < 0.95:
+            ops.append("k")
+        else:
+            ops.append("z")
+            closed = True
+    return "hc %d %s %d %s" % (M, fmt_pool(pool), NR, " ".join(ops))
+
+
 # ------------------------------------------------------------------------------------------ entry points
 def generate(rng, tier):
     scale = 3 if tier == "quick" else 40
@@ -451,7 +530,8 @@ def generate(rng, tier):
             ("hp:subtree", 50, lambda: hp_subtree_case(rng)),
             ("hp:dups", 30, lambda: hp_dup_case(rng)),
             ("hp:shape", 80, lambda: hp_shape_case(rng)),
-            ("vc", 40, lambda: vc_case(rng))]
+            ("vc", 40, lambda: vc_case(rng)),
+            ("hc:computed", 120, lambda: hc_case(rng))]
     cases = []
     for name, n, f in plan:
         for _ in range(n * scale):
@@ -474,6 +554,9 @@ def nontrivial(case):
     kind = t[0]
     if kind == "hashes":
         return False
+    if kind == "hc":
+        ops = t[3 + 4 * int(t[2]) + 1:]
+        return any(o[0] == "C" for o in ops) and any(o[0] in "iIm" for o in ops)
     P = int(t[1])
     per = 5 if kind == "hp" else 4
     ops = t[2 + per * P:]
@@ -497,9 +580,12 @@ def explain(case, c_out, m_out):
     if m_out.startswith("CHECK"):
         return m_out
     t = case.split()
-    P = int(t[1])
-    per = 5 if t[0] == "hp" else 4
-    ops = t[2 + per * P:]
+    if t[0] == "hc":
+        ops = t[3 + 4 * int(t[2]) + 1:]
+    else:
+        P = int(t[1])
+        per = 5 if t[0] == "hp" else 4
+        ops = t[2 + per * P:]
     cg, mg = _groups(c_out), _groups(m_out)
     for k in range(max(len(cg), len(mg))):
         a = cg[k] if k < len(cg) else "<missing>"
